@@ -7,6 +7,7 @@ import VK.Lemmas.STVRun
 import VK.Lemmas.PSC
 import VK.Lemmas.NoFuel
 import VK.Lemmas.FpvLink
+import VK.Props.C06
 
 namespace VK
 
@@ -313,6 +314,319 @@ theorem C01_borda (p : Profile) (m : Nat) (v : Option (List Rat)) (tb : Option T
     exact C01_topM_count_partition p m tb pri _ st hc
       (fun sc hsc => scoreFromRankings_keys p _ sc hsc) hv
   exact key _ h
+
+/-! ### composites, pairwise rules and the dictator rules -/
+
+theorem removeCand_cands_nodup (removed : List Cand) (p : Profile) (h : p.cands.Nodup) :
+    (removeCand removed p).cands.Nodup := by
+  unfold removeCand; exact h.filter _
+
+/-- what the finalist stage returns -/
+theorem finalistStage_ok (p : Profile) (k : Nat) (tb : Option TB) (pri : List Cand)
+    (st0 st1 : RoundState) (p1 : Profile) (h : finalistStage p k tb pri = .ok (st0, st1, p1)) :
+    st0.elected = [] ∧ st1.elected = [] ∧ ∃ removed, p1 = removeCand removed p := by
+  unfold finalistStage at h
+  cases h0 : firstPlaceVotes p with
+  | ok sc0 =>
+    simp only [h0, bind, Outcome.bind] at h
+    cases h1 : pluralityRun p k tb pri with
+    | ok pl =>
+      simp only [h1] at h
+      split at h
+      · rename_i s0 s1
+        cases h2 : firstPlaceVotes (removeCand s1.remaining.flatten p) with
+        | ok sc1 =>
+          simp only [h2, pure, Outcome.ok.injEq, Prod.mk.injEq] at h
+          obtain ⟨e0, e1, e2⟩ := h
+          subst e0 e1 e2
+          exact ⟨by simp [initialState], rfl, _, rfl⟩
+        | raised e => simp [h2] at h
+        | oracleMismatch => simp [h2] at h
+        | outOfFuel => simp [h2] at h
+      · cases h
+    | raised e => simp [h1] at h
+    | oracleMismatch => simp [h1] at h
+    | outOfFuel => simp [h1] at h
+  | raised e => simp [h0, bind, Outcome.bind] at h
+  | oracleMismatch => simp [h0, bind, Outcome.bind] at h
+  | outOfFuel => simp [h0, bind, Outcome.bind] at h
+
+/-- **TopTwo elects exactly one candidate.** -/
+theorem C01_toptwo_one_winner (p : Profile) (tb : Option TB) (pri : Nat → List Cand) (st : States)
+    (hc : p.cands.Nodup) (h : topTwoRun p tb pri = .ok st) : (electedOf st).length = 1 := by
+  unfold topTwoRun at h
+  split at h; · cases h
+  cases h1 : finalistStage p 2 tb (pri 1) with
+  | ok x =>
+    obtain ⟨st0, st1, p1⟩ := x
+    simp only [h1, bind, Outcome.bind] at h
+    obtain ⟨e0, e1, removed, hp1⟩ := finalistStage_ok p 2 tb (pri 1) st0 st1 p1 h1
+    cases h2 : pluralityRun p1 1 tb (pri 2) with
+    | ok pl =>
+      simp only [h2] at h
+      split at h
+      · rename_i s0 s
+        simp only [pure, Outcome.ok.injEq] at h
+        subst h
+        have hp1n : p1.cands.Nodup := by rw [hp1]; exact removeCand_cands_nodup _ _ hc
+        obtain ⟨hcount, _, _⟩ := C01_plurality p1 1 tb (pri 2) _ hp1n h2
+        obtain ⟨sc0, r, sc1, _, _, hst⟩ := topMRun_ok p1 1 tb (pri 2) firstPlaceVotes _ (by
+          unfold pluralityRun at h2; split at h2; · cases h2
+          exact h2)
+        injection hst with hs0 hrest
+        injection hrest with hs1 _
+        subst hs0 hs1
+        simp only [electedOf, List.flatMap_cons, List.flatMap_nil, e0, e1, List.nil_append, List.append_nil] at hcount ⊢
+        simpa [initialState] using hcount
+      · cases h
+    | raised e => simp [h2] at h
+    | oracleMismatch => simp [h2] at h
+    | outOfFuel => simp [h2] at h
+  | raised e => simp [h1, bind, Outcome.bind] at h
+  | oracleMismatch => simp [h1, bind, Outcome.bind] at h
+  | outOfFuel => simp [h1, bind, Outcome.bind] at h
+
+theorem electedOf_map_round (l : States) (f : RoundState → RoundState) (hf : ∀ s, (f s).elected = s.elected) :
+    electedOf (l.map f) = electedOf l := by
+  unfold electedOf
+  induction l with
+  | nil => rfl
+  | cons x xs ih => simp only [List.map_cons, List.flatMap_cons, hf, List.flatten_append, ih]
+
+/-- **Alaska elects exactly `m_2` candidates.** -/
+theorem C01_alaska_exactly_m2 (p : Profile) (m1 m2 : Int) (cfg : STVCfg) (ω : STVOracle) (st : States)
+    (hc : p.cands.Nodup) (h : alaskaRun p m1 m2 cfg ω = .ok st) : (electedOf st).length = m2.toNat := by
+  unfold alaskaRun at h
+  split at h; · cases h
+  split at h; · cases h
+  cases h1 : finalistStage p m1.toNat cfg.tiebreak (ω.pri 1) with
+  | ok x =>
+    obtain ⟨st0, st1, p1⟩ := x
+    simp only [h1, bind, Outcome.bind] at h
+    obtain ⟨e0, e1, removed, hp1⟩ := finalistStage_ok p _ _ _ st0 st1 p1 h1
+    cases h2 : stvRun { cfg with m := m2.toNat } p1
+        { pri := fun r => ω.pri (r + 1), sample := fun r => ω.sample (r + 1) } true with
+    | ok res =>
+      simp only [h2, pure, Outcome.ok.injEq] at h
+      subst h
+      have hp1n : p1.cands.Nodup := by rw [hp1]; exact removeCand_cands_nodup _ _ hc
+      obtain ⟨hcount, _⟩ := C01_stv_exactly_m_and_partition _ p1 _ res hp1n h2
+      -- the first STV state records nobody as elected
+      have hfirst : ∀ s0 rest, res.states = s0 :: rest → s0.elected = [] := by
+        intro s0 rest hs
+        unfold stvRun at h2
+        split at h2; · cases h2
+        split at h2; · cases h2
+        split at h2; · cases h2
+        cases hf : firstPlaceVotes p1 with
+        | ok sc0 =>
+          simp only [hf, bind, Outcome.bind] at h2
+          cases hl : stvLoop { cfg with m := m2.toNat } p1 (threshold cfg.quota m2.toNat p1.total)
+              { pri := fun r => ω.pri (r + 1), sample := fun r => ω.sample (r + 1) } (p1.cands.length + 2) (stvInitState p1)
+              (initialState p1.cands (some sc0)) [(initialState p1.cands (some sc0), stvInitState p1)] with
+          | ok tr =>
+            simp only [hl, pure, Outcome.ok.injEq] at h2
+            -- the trace starts with the initial state (the accumulator is only extended at the front and reversed)
+            have hhead : ∀ (fuel : Nat) (S : CState) (prev : RoundState) (acc tr' : List (RoundState × CState)) (x : RoundState × CState),
+                stvLoop { cfg with m := m2.toNat } p1 (threshold cfg.quota m2.toNat p1.total)
+                  { pri := fun r => ω.pri (r + 1), sample := fun r => ω.sample (r + 1) } fuel S prev acc = .ok tr' →
+                acc.getLast? = some x → tr'.head? = some x := by
+              intro fuel
+              induction fuel with
+              | zero =>
+                intro S prev acc tr' x hl' hx
+                unfold stvLoop at hl'
+                split at hl'
+                · injection hl' with hl'; subst hl'; rw [List.head?_reverse]; exact hx
+                · cases hl'
+              | succ fuel ih =>
+                intro S prev acc tr' x hl' hx
+                unfold stvLoop at hl'
+                split at hl'
+                · injection hl' with hl'; subst hl'; rw [List.head?_reverse]; exact hx
+                · cases hs : stvStep { cfg with m := m2.toNat } p1 (threshold cfg.quota m2.toNat p1.total)
+                      { pri := fun r => ω.pri (r + 1), sample := fun r => ω.sample (r + 1) } (prev.round + 1) S prev with
+                  | ok Sr =>
+                    simp only [hs, bind, Outcome.bind] at hl'
+                    refine ih _ _ _ _ x hl' ?_
+                    cases acc with
+                    | nil => simp at hx
+                    | cons a as => simpa [List.getLast?_cons_cons] using hx
+                  | raised e => simp [hs, bind, Outcome.bind] at hl'
+                  | oracleMismatch => simp [hs, bind, Outcome.bind] at hl'
+                  | outOfFuel => simp [hs, bind, Outcome.bind] at hl'
+            have := hhead _ _ _ _ tr (initialState p1.cands (some sc0), stvInitState p1) hl (by simp)
+            rw [← h2] at hs
+            simp only [STVResult.states] at hs
+            cases tr with
+            | nil => simp at this
+            | cons t0 ts =>
+              simp only [List.head?_cons, Option.some.injEq] at this
+              simp only [List.map_cons, List.cons.injEq] at hs
+              rw [← hs.1, this]; simp [initialState]
+          | raised e => simp [hl] at h2
+          | oracleMismatch => simp [hl] at h2
+          | outOfFuel => simp [hl] at h2
+        | raised e => simp [hf, bind, Outcome.bind] at h2
+        | oracleMismatch => simp [hf, bind, Outcome.bind] at h2
+        | outOfFuel => simp [hf, bind, Outcome.bind] at h2
+      have hdrop : electedOf (res.states.drop 1) = electedOf res.states := by
+        cases hs : res.states with
+        | nil => rfl
+        | cons s0 rest =>
+          have := hfirst s0 rest hs
+          simp [electedOf, this]
+      show (electedOf (st0 :: st1 :: (res.states.drop 1).map (fun s => { s with round := s.round + 1 }))).length = m2.toNat
+      have hmap := electedOf_map_round (res.states.drop 1) (fun s => { s with round := s.round + 1 }) (fun _ => rfl)
+      have : electedOf (st0 :: st1 :: (res.states.drop 1).map (fun s => { s with round := s.round + 1 })) =
+          electedOf ((res.states.drop 1).map (fun s => { s with round := s.round + 1 })) := by
+        simp [electedOf, e0, e1]
+      rw [this, hmap, hdrop]; exact hcount
+    | raised e => simp [h2] at h
+    | oracleMismatch => simp [h2] at h
+    | outOfFuel => simp [h2] at h
+  | raised e => simp [h1, bind, Outcome.bind] at h
+  | oracleMismatch => simp [h1, bind, Outcome.bind] at h
+  | outOfFuel => simp [h1, bind, Outcome.bind] at h
+
+/-- the dictator loops: one winner per round, exactly `m` in the end, and the fuel `m + 1` is never
+what stops them -/
+theorem rdLoop_count (m : Nat) (ω : RDOracle) (fuel : Nat) (p : Profile) (n rnd : Nat) (acc : List RoundState)
+    (st : States) (hn : n ≤ m) (hacc : (electedOf acc).length = n)
+    (h : rdLoop m ω fuel p n rnd acc = .ok st) : (electedOf st).length = m := by
+  induction fuel generalizing p n rnd acc with
+  | zero =>
+    unfold rdLoop at h
+    split at h
+    · injection h with h; subst h
+      have : (electedOf acc.reverse).length = (electedOf acc).length := electedIn_reverse_length acc
+      rw [this, hacc]; omega
+    · cases h
+  | succ fuel ih =>
+    unfold rdLoop at h
+    split at h
+    · injection h with h; subst h
+      have : (electedOf acc.reverse).length = (electedOf acc).length := electedIn_reverse_length acc
+      rw [this, hacc]; omega
+    · rename_i hlt
+      cases hd : dictatorPick p (ω.pick rnd) (ω.pri rnd) with
+      | ok wt =>
+        obtain ⟨w, tbs⟩ := wt
+        simp only [hd, bind, Outcome.bind] at h
+        cases hs : firstPlaceVotes (removeCand [w] p) with
+        | ok sc =>
+          simp only [hs] at h
+          refine ih _ _ _ _ (by omega) ?_ h
+          simp only [electedOf, List.flatMap_cons, List.flatten_append, List.length_append] at hacc ⊢
+          simp [hacc]; omega
+        | raised e => simp [hs] at h
+        | oracleMismatch => simp [hs] at h
+        | outOfFuel => simp [hs] at h
+      | raised e => simp [hd, bind, Outcome.bind] at h
+      | oracleMismatch => simp [hd, bind, Outcome.bind] at h
+      | outOfFuel => simp [hd, bind, Outcome.bind] at h
+
+/-- **RandomDictator elects exactly `m` candidates**, for every oracle -/
+theorem C01_random_dictator_exactly_m (p : Profile) (m : Int) (ω : RDOracle) (st : States)
+    (h : randomDictatorRun p m ω = .ok st) : (electedOf st).length = m.toNat := by
+  unfold randomDictatorRun at h
+  split at h; · cases h
+  split at h; · cases h
+  cases h0 : firstPlaceVotes p with
+  | ok sc0 =>
+    simp only [h0, bind, Outcome.bind] at h
+    exact rdLoop_count m.toNat ω _ p 0 1 _ st (Nat.zero_le _) (by simp [electedOf, initialState]) h
+  | raised e => simp [h0, bind, Outcome.bind] at h
+  | oracleMismatch => simp [h0, bind, Outcome.bind] at h
+  | outOfFuel => simp [h0, bind, Outcome.bind] at h
+
+theorem brdLoop_count (m : Nat) (ω : RDOracle) (fuel : Nat) (p : Profile) (scores : List (Cand × Rat))
+    (n rnd : Nat) (acc : List RoundState)
+    (st : States) (hn : n ≤ m) (hacc : (electedOf acc).length = n)
+    (h : brdLoop m ω fuel p scores n rnd acc = .ok st) : (electedOf st).length = m := by
+  induction fuel generalizing p scores n rnd acc with
+  | zero =>
+    unfold brdLoop at h
+    split at h
+    · injection h with h; subst h
+      have : (electedOf acc.reverse).length = (electedOf acc).length := electedIn_reverse_length acc
+      rw [this, hacc]; omega
+    · cases h
+  | succ fuel ih =>
+    unfold brdLoop at h
+    split at h
+    · injection h with h; subst h
+      have : (electedOf acc.reverse).length = (electedOf acc).length := electedIn_reverse_length acc
+      rw [this, hacc]; omega
+    · rename_i hlt
+      cases hd : boostedPick p scores ω rnd with
+      | ok wt =>
+        obtain ⟨w, tbs⟩ := wt
+        simp only [hd, bind, Outcome.bind] at h
+        cases hs : firstPlaceVotes (removeCand [w] p) with
+        | ok sc =>
+          simp only [hs] at h
+          refine ih _ _ _ _ _ (by omega) ?_ h
+          simp only [electedOf, List.flatMap_cons, List.flatten_append, List.length_append] at hacc ⊢
+          simp [hacc]; omega
+        | raised e => simp [hs] at h
+        | oracleMismatch => simp [hs] at h
+        | outOfFuel => simp [hs] at h
+      | raised e => simp [hd, bind, Outcome.bind] at h
+      | oracleMismatch => simp [hd, bind, Outcome.bind] at h
+      | outOfFuel => simp [hd, bind, Outcome.bind] at h
+
+/-- **BoostedRandomDictator elects exactly `m` candidates**, for every oracle -/
+theorem C01_boosted_exactly_m (p : Profile) (m : Int) (ω : RDOracle) (st : States)
+    (h : boostedRun p m ω = .ok st) : (electedOf st).length = m.toNat := by
+  unfold boostedRun at h
+  split at h; · cases h
+  split at h; · cases h
+  cases h0 : firstPlaceVotes p with
+  | ok sc0 =>
+    simp only [h0, bind, Outcome.bind] at h
+    exact brdLoop_count m.toNat ω _ p sc0 0 1 _ st (Nat.zero_le _) (by simp [electedOf, initialState]) h
+  | raised e => simp [h0, bind, Outcome.bind] at h
+  | oracleMismatch => simp [h0, bind, Outcome.bind] at h
+  | outOfFuel => simp [h0, bind, Outcome.bind] at h
+
+/-- **CondoBorda elects exactly `m` candidates** (whole tiers, then Borda inside the straddling tier) -/
+theorem C01_condoborda_exactly_m (p : Profile) (m : Nat) (pri : List Cand) (st : States)
+    (hc : p.cands.Nodup) (h : condoBordaRun p m pri = .ok st) : (electedOf st).length = m := by
+  unfold condoBordaRun at h
+  split at h; · cases h
+  cases h0 : bordaScores p with
+  | ok sc0 =>
+    simp only [h0, bind, Outcome.bind] at h
+    cases h1 : electFromRanking pri (dominatingTiers p) m (some p) (some .borda) with
+    | ok r =>
+      simp only [h1] at h
+      cases h2 : bordaScores (removeCand r.elected.flatten p) with
+      | ok sc1 =>
+        simp only [h2, pure, Outcome.ok.injEq] at h
+        subst h
+        have hperm := C06_tiers_partition p
+        have hgn : (graphCands p).Nodup := by unfold graphCands; split; exact List.nodup_nil; exact hc
+        have hnn : (dominatingTiers p).flatten.Nodup := hperm.nodup_iff.2 hgn
+        have hnd : ∀ g ∈ dominatingTiers p, g.Nodup := fun g hg => (List.nodup_flatten.1 hnn).1 g hg
+        have hsub : ∀ q, some p = some q → q.cands.Nodup ∧ ∀ g ∈ dominatingTiers p, ∀ c ∈ g, c ∈ q.cands := by
+          intro q hq; injection hq with hq; subst hq
+          refine ⟨hc, fun g hg c hcg => ?_⟩
+          have : c ∈ graphCands p := hperm.mem_iff.1 (List.mem_flatten.2 ⟨g, hg, hcg⟩)
+          unfold graphCands at this; split at this
+          · cases this
+          · exact this
+        have := (electFromRanking_count pri _ m (some p) (some .borda) r hnd hsub h1).1
+        simpa [electedOf, initialState] using this
+      | raised e => simp [h2] at h
+      | oracleMismatch => simp [h2] at h
+      | outOfFuel => simp [h2] at h
+    | raised e => simp [h1] at h
+    | oracleMismatch => simp [h1] at h
+    | outOfFuel => simp [h1] at h
+  | raised e => simp [h0, bind, Outcome.bind] at h
+  | oracleMismatch => simp [h0, bind, Outcome.bind] at h
+  | outOfFuel => simp [h0, bind, Outcome.bind] at h
 
 /-! non-vacuity: an STV count and a Plurality election that finish -/
 def exBallots : List Ballot := [Ballot.mk [[0], [1]] 3 [], Ballot.mk [[1]] 2 []]
